@@ -205,6 +205,37 @@ def windows(res, prog, cu):
             res.violation('C04.5', 'C04.5|mips|%s' % k.split('::')[3], None, None, 'MIPS scan window is %s bytes, documented 1024' % v, file='minidump-unwind/src/mips.rs')
 
 
+def ptr_auth(res, prog, cu):
+    """C04.8: ARM64 return addresses / frame pointers are stripped with a mask that covers every address of every loaded
+    module: all ones below the next power of two above max(2^47 - 1, end of the highest module), where the end is
+    base + size (saturating).  A mask derived from the base alone cuts the top bit off return addresses in a module that
+    straddles a power of two."""
+    res.rule('C04.8', 0, floor=6, note='ptr_auth_strip: ptr & (next_power_of_two(max(2^47 - 1, last_module.base + last_module.size)) - 1), !0 on overflow')
+    for arch in ('arm64', 'arm64_old'):
+        f = need_fn(res, cu, 'minidump_unwind::%s::ptr_auth_strip' % arch, 'C04.8')
+        if f is None:
+            continue
+        rets = [f.expand(t) for (b, i, t) in ret_assigns(f)]
+        res.rule('C04.8', 1)
+        want = re.compile(r'^\(BitAnd ptr \(std::option::Option::unwrap_or \(std::option::Option::map \(core::num::checked_next_power_of_two \(std::cmp::Ord::max \(Sub \(Shl 1 47\) 1\) \(std::option::Option::unwrap_or \(std::option::Option::map \(<std::iter::Map<I, F> as std::iter::DoubleEndedIterator>::next_back _\d*\) \(closure (minidump_unwind::%s::ptr_auth_strip::\{closure#\d+\})\)\) 0\)\)\) \(closure (minidump_unwind::%s::ptr_auth_strip::\{closure#\d+\})\)\) \(un Not 0\)\)\)$' % (arch, arch))
+        m = want.match(show(rets[0])) if len(rets) == 1 else None
+        if not m:
+            res.violation('C04.8', 'C04.8|%s|mask' % arch, f, f.line, 'ptr_auth_strip is not ptr & (checked_next_power_of_two(max(2^47 - 1, <end of last module or 0>)).map(|b| b - 1).unwrap_or(!0)): %s' % (show(rets[0])[:300] if rets else 'no return'))
+            continue
+        hi, sub1 = cu.fn(m.group(1)), cu.fn(m.group(2))
+        res.rule('C04.8', 2)
+        e = [show(hi.expand(t)) for (b, i, t) in ret_assigns(hi)] if hi else []
+        if e != ['(core::num::saturating_add (<minidump::MinidumpModule as minidump::Module>::base_address last_module) (<minidump::MinidumpModule as minidump::Module>::size last_module))']:
+            res.violation('C04.8', 'C04.8|%s|module-end' % arch, hi or f, (hi or f).line, 'the highest module address is %s, not last_module.base_address().saturating_add(last_module.size())' % e)
+        e = [show(sub1.expand(t)) for (b, i, t) in ret_assigns(sub1)] if sub1 else []
+        if e != ['(Sub high_bit 1)']:
+            res.violation('C04.8', 'C04.8|%s|mask-from-bit' % arch, sub1 or f, (sub1 or f).line, 'the mask is %s, not high_bit - 1' % e)
+        # the iterator is modules.by_addr() (ascending by address), so next_back() is the highest module
+        ok = any((f.callee(t) or '').endswith('MinidumpModuleList::by_addr') for b, t in f.calls())
+        if not ok:
+            res.violation('C04.8', 'C04.8|%s|by_addr' % arch, f, f.line, 'the module iterator is not modules.by_addr()')
+
+
 def run(tier, t0):
     res = harness.Result(PID)
     prog = program()
@@ -225,7 +256,8 @@ def run(tier, t0):
     # the saved-$ebp slot are part of "the walker recovers the caller" for STACK WIN type 0 frames
     from . import fpo
     fpo.fpo_formulas(res, prog, 'C04.7')
+    ptr_auth(res, prog, cu)
     res.assumptions += ['that frames, registers and names come out right for a given stack is behavioural: a fault inside a technique\'s arithmetic is invisible to these rules']
-    return harness.finish(res, tier, t0, distinct=7, explanation=(
+    return harness.finish(res, tier, t0, distinct=8, explanation=(
         'Narrow claim: necessary structural conditions of correct walking. Technique priority and retry discipline in each architecture, technique labels, MIR-level equality of the arm64 / arm64_old twins modulo the context type, '
         'existence and canonical spelling of every register name the unwinders insert into or test against validity sets (two alias defects found this way were repaired in /repo), and the documented scan windows read from MIR constants.'))
